@@ -5,7 +5,7 @@
 From Coq Require Import List ZArith Bool.
 Import ListNotations.
 Require Import Naga.Layout.Spec Naga.Layout.Constraints Naga.Layout.Naga Naga.Layout.Hlsl Naga.Layout.Glsl
-  Naga.Layout.Msl Naga.Layout.Arith Naga.Layout.SpecProofs Naga.Layout.NagaProofs Naga.Layout.HlslProofs
+  Naga.Layout.Spv Naga.Layout.Msl Naga.Layout.Arith Naga.Layout.SpecProofs Naga.Layout.NagaProofs Naga.Layout.HlslProofs
   Naga.Layout.GlslProofs Naga.Layout.MslProofs.
 Open Scope Z_scope.
 
@@ -68,6 +68,15 @@ Theorem naga_layout_refuted_nonliteral_attr :
   (exists t, wf t = true /\ inner_align_inert t = true /\ fits t = true /\ naga_layout t <> spec_layout t).
 Proof. exact NagaProofs.naga_layout_refuted_nonliteral_attr. Qed.
 Print Assumptions naga_layout_refuted_nonliteral_attr.
+
+(* ---- SPIR-V: Offset and ArrayStride decorations are copies of the IR values above;
+   MatrixStride is computed and equals the WGSL column distance ---- *)
+Theorem spv_matrix_stride_eq_spec : forall c r s, wf (TMat c r s) = true ->
+  spv_matrix_stride r s = align_of (TVec r s) /\
+  path_offset [1] (TMat c r s) = Some (spv_matrix_stride r s) /\
+  c * spv_matrix_stride r s = size_of (TMat c r s).
+Proof. exact spv_matrix_stride_eq_spec_lemma. Qed.
+Print Assumptions spv_matrix_stride_eq_spec.
 
 (* ---- HLSL: byte addresses of storage-buffer accesses ---- *)
 
